@@ -16,6 +16,7 @@ RULE = ("every registered converter (list and extensions read from `ucg converte
         "to (probe); a failed build exits 1 and leaves the directory exactly as it was. distinct = distinct (format, "
         "value, history); non-trivial = a failing build or a build over a pre-existing artifact.")
 RULE += (" " + 'Also: 13 source places (names with dots, blanks, a leading dot, non-ASCII; subdirectories; other working directories; absolute paths); values whose conversion succeeds with zero bytes (fresh and over an earlier artifact); outputs of 20 KiB .. 100 KiB, first larger then smaller and the other way round.')
+RULE += (" " + 'Two-out files carry one of 15 kinds of evaluation between the two statements (function call, module instantiation, map/filter/reduce, template expression, import, select, assert, convert, constrained let) and second values computed by a call or a select.')
 
 
 def converters_from_cli():
